@@ -194,7 +194,7 @@ def judge_generic(spec, rdclass, wire, probs):
     return "ok"
 
 
-def judge_zone_line(spec, rdclass, wire, probs):
+def judge_zone_line(spec, rdclass, wire, probs, diag=True):
     """The same text inside a zone-file line (tokenizer + $ORIGIN relativisation + comment)."""
     T = spec.name
     r = dns.rdata.from_wire(rdclass, spec.rdtype, wire, 0, len(wire), EXAMPLE)
@@ -210,7 +210,9 @@ def judge_zone_line(spec, rdclass, wire, probs):
         r2 = rds[0][0]
     except dns.exception.DNSException as e:
         ref = R.ref_decode(spec, wire, 0, len(wire))
-        which = _culprit(spec, ref[1] if ref[0] == "ok" else None, lambda v: judge_zone_line(spec, rdclass, R.ref_encode(spec, v), []) == "rejected")
+        which = "undiagnosed" if not diag else _culprit(
+            spec, ref[1] if ref[0] == "ok" else None,
+            lambda v: judge_zone_line(spec, rdclass, R.ref_encode(spec, v), [], False) == "rejected")
         probs.append((T + "/zone-line/own-text-rejected/" + which, "zone line %r rejected: %s: %s" % (line, type(e).__name__, e)))
         return "rejected"
     except Exception as e:
@@ -323,7 +325,10 @@ def _do(col, case):
     col.count("evaluations")
     col.outcome(case["mode"] + ":" + label)
     if label not in ("rejected", "skip"):
-        col.nontrivial(tuple(sorted((k, v) for k, v in case.items())))
+        if case["mode"] == "acc":
+            col.count("nontrivial_octet_strings_accepted")      # distinct by construction
+        else:
+            col.nontrivial(tuple(sorted((k, v) for k, v in case.items())))
     for s, w in probs:
         col.violation("C05/" + s, w, case)
     return label
@@ -456,9 +461,9 @@ def _dispatch(task, col):
 def run(ctx):
     q = ctx.quick
     tier = ctx.tier
-    k = 2
-    cap = ctx.pick(4, 10)
-    n8 = ctx.pick(3, 5)
+    k = ctx.pick(2, 3)
+    cap = ctx.pick(5, 10)
+    n8 = ctx.pick(4, 5)
     ctx.rule = (
         "per (class,type) with a presentation format: the C02 value generator (k-deviation over per-field boundary "
         "domains) restricted to values expressible in text, each through to_text->from_text under origin {None,example.} "
@@ -467,7 +472,8 @@ def run(ctx):
         "a 20-class alphabet in every character-string field; every from_wire-accepted octet string (C02 arbitrary-octet "
         "space) must render with to_text (and round-trip when reference-well-formed); every single-token substitution "
         "(fixed replacement list) of valid texts that from_text accepts must encode with to_wire and render with to_text. "
-        "A case is distinct by its full description; non-trivial = not rejected at the first step.")
+        "A case is distinct by its full description; non-trivial = not rejected at the first step (accepted arbitrary-octet "
+        "strings are distinct by construction and reported as the counter nontrivial_octet_strings_accepted).")
     ctx.assume("round trip equality = identical to_wire octets under origin example. (and == when original and parsed "
                "record have the same relativity)")
     ctx.assume("values not expressible in the presentation format are excluded; reasons and counts are in outcomes 'restricted:*'")
